@@ -77,8 +77,10 @@ func (s *Server) analyze(st any, given []uint32) (*stmtInfo, *pgErr) {
 			}
 		}
 	case *alterTableStmt:
-		if st.add != nil && st.add.def != nil {
-			_, err = a.expr(st.add.def, nil)
+		for _, one := range append([]*alterTableStmt{st}, st.more...) {
+			if one.add != nil && one.add.def != nil && err == nil {
+				_, err = a.expr(one.add.def, nil)
+			}
 		}
 	}
 	if err != nil {
